@@ -135,26 +135,28 @@ Record thr := mkThr {
   l_lvl : nat;
   l_pan : bool;
   l_nt : bool;
-  l_has : bool
+  l_has : bool;
+  l_late : bool
 }.
-Definition goto (v : ppc) (x : thr) : thr := mkThr v (l_task x) (l_nil x) (l_cancel x) (l_second x) (l_ok x) (l_err x) (l_flag x) (l_n x) (l_a x) (l_b x) (l_acc x) (l_wid x) (l_tm x) (l_lvl x) (l_pan x) (l_nt x) (l_has x).
-Definition set_task (v : task) (x : thr) : thr := mkThr (pc x) v (l_nil x) (l_cancel x) (l_second x) (l_ok x) (l_err x) (l_flag x) (l_n x) (l_a x) (l_b x) (l_acc x) (l_wid x) (l_tm x) (l_lvl x) (l_pan x) (l_nt x) (l_has x).
-Definition set_nil (v : bool) (x : thr) : thr := mkThr (pc x) (l_task x) v (l_cancel x) (l_second x) (l_ok x) (l_err x) (l_flag x) (l_n x) (l_a x) (l_b x) (l_acc x) (l_wid x) (l_tm x) (l_lvl x) (l_pan x) (l_nt x) (l_has x).
-Definition set_cancel (v : bool) (x : thr) : thr := mkThr (pc x) (l_task x) (l_nil x) v (l_second x) (l_ok x) (l_err x) (l_flag x) (l_n x) (l_a x) (l_b x) (l_acc x) (l_wid x) (l_tm x) (l_lvl x) (l_pan x) (l_nt x) (l_has x).
-Definition set_second (v : bool) (x : thr) : thr := mkThr (pc x) (l_task x) (l_nil x) (l_cancel x) v (l_ok x) (l_err x) (l_flag x) (l_n x) (l_a x) (l_b x) (l_acc x) (l_wid x) (l_tm x) (l_lvl x) (l_pan x) (l_nt x) (l_has x).
-Definition set_ok (v : bool) (x : thr) : thr := mkThr (pc x) (l_task x) (l_nil x) (l_cancel x) (l_second x) v (l_err x) (l_flag x) (l_n x) (l_a x) (l_b x) (l_acc x) (l_wid x) (l_tm x) (l_lvl x) (l_pan x) (l_nt x) (l_has x).
-Definition set_err (v : perr) (x : thr) : thr := mkThr (pc x) (l_task x) (l_nil x) (l_cancel x) (l_second x) (l_ok x) v (l_flag x) (l_n x) (l_a x) (l_b x) (l_acc x) (l_wid x) (l_tm x) (l_lvl x) (l_pan x) (l_nt x) (l_has x).
-Definition set_flag (v : bool) (x : thr) : thr := mkThr (pc x) (l_task x) (l_nil x) (l_cancel x) (l_second x) (l_ok x) (l_err x) v (l_n x) (l_a x) (l_b x) (l_acc x) (l_wid x) (l_tm x) (l_lvl x) (l_pan x) (l_nt x) (l_has x).
-Definition set_n (v : Z) (x : thr) : thr := mkThr (pc x) (l_task x) (l_nil x) (l_cancel x) (l_second x) (l_ok x) (l_err x) (l_flag x) v (l_a x) (l_b x) (l_acc x) (l_wid x) (l_tm x) (l_lvl x) (l_pan x) (l_nt x) (l_has x).
-Definition set_a (v : Z) (x : thr) : thr := mkThr (pc x) (l_task x) (l_nil x) (l_cancel x) (l_second x) (l_ok x) (l_err x) (l_flag x) (l_n x) v (l_b x) (l_acc x) (l_wid x) (l_tm x) (l_lvl x) (l_pan x) (l_nt x) (l_has x).
-Definition set_b (v : Z) (x : thr) : thr := mkThr (pc x) (l_task x) (l_nil x) (l_cancel x) (l_second x) (l_ok x) (l_err x) (l_flag x) (l_n x) (l_a x) v (l_acc x) (l_wid x) (l_tm x) (l_lvl x) (l_pan x) (l_nt x) (l_has x).
-Definition set_acc (v : list task) (x : thr) : thr := mkThr (pc x) (l_task x) (l_nil x) (l_cancel x) (l_second x) (l_ok x) (l_err x) (l_flag x) (l_n x) (l_a x) (l_b x) v (l_wid x) (l_tm x) (l_lvl x) (l_pan x) (l_nt x) (l_has x).
-Definition set_wid (v : Z) (x : thr) : thr := mkThr (pc x) (l_task x) (l_nil x) (l_cancel x) (l_second x) (l_ok x) (l_err x) (l_flag x) (l_n x) (l_a x) (l_b x) (l_acc x) v (l_tm x) (l_lvl x) (l_pan x) (l_nt x) (l_has x).
-Definition set_tm (v : tmr) (x : thr) : thr := mkThr (pc x) (l_task x) (l_nil x) (l_cancel x) (l_second x) (l_ok x) (l_err x) (l_flag x) (l_n x) (l_a x) (l_b x) (l_acc x) (l_wid x) v (l_lvl x) (l_pan x) (l_nt x) (l_has x).
-Definition set_lvl (v : nat) (x : thr) : thr := mkThr (pc x) (l_task x) (l_nil x) (l_cancel x) (l_second x) (l_ok x) (l_err x) (l_flag x) (l_n x) (l_a x) (l_b x) (l_acc x) (l_wid x) (l_tm x) v (l_pan x) (l_nt x) (l_has x).
-Definition set_pan (v : bool) (x : thr) : thr := mkThr (pc x) (l_task x) (l_nil x) (l_cancel x) (l_second x) (l_ok x) (l_err x) (l_flag x) (l_n x) (l_a x) (l_b x) (l_acc x) (l_wid x) (l_tm x) (l_lvl x) v (l_nt x) (l_has x).
-Definition set_nt (v : bool) (x : thr) : thr := mkThr (pc x) (l_task x) (l_nil x) (l_cancel x) (l_second x) (l_ok x) (l_err x) (l_flag x) (l_n x) (l_a x) (l_b x) (l_acc x) (l_wid x) (l_tm x) (l_lvl x) (l_pan x) v (l_has x).
-Definition set_has (v : bool) (x : thr) : thr := mkThr (pc x) (l_task x) (l_nil x) (l_cancel x) (l_second x) (l_ok x) (l_err x) (l_flag x) (l_n x) (l_a x) (l_b x) (l_acc x) (l_wid x) (l_tm x) (l_lvl x) (l_pan x) (l_nt x) v.
+Definition goto (v : ppc) (x : thr) : thr := mkThr v (l_task x) (l_nil x) (l_cancel x) (l_second x) (l_ok x) (l_err x) (l_flag x) (l_n x) (l_a x) (l_b x) (l_acc x) (l_wid x) (l_tm x) (l_lvl x) (l_pan x) (l_nt x) (l_has x) (l_late x).
+Definition set_task (v : task) (x : thr) : thr := mkThr (pc x) v (l_nil x) (l_cancel x) (l_second x) (l_ok x) (l_err x) (l_flag x) (l_n x) (l_a x) (l_b x) (l_acc x) (l_wid x) (l_tm x) (l_lvl x) (l_pan x) (l_nt x) (l_has x) (l_late x).
+Definition set_nil (v : bool) (x : thr) : thr := mkThr (pc x) (l_task x) v (l_cancel x) (l_second x) (l_ok x) (l_err x) (l_flag x) (l_n x) (l_a x) (l_b x) (l_acc x) (l_wid x) (l_tm x) (l_lvl x) (l_pan x) (l_nt x) (l_has x) (l_late x).
+Definition set_cancel (v : bool) (x : thr) : thr := mkThr (pc x) (l_task x) (l_nil x) v (l_second x) (l_ok x) (l_err x) (l_flag x) (l_n x) (l_a x) (l_b x) (l_acc x) (l_wid x) (l_tm x) (l_lvl x) (l_pan x) (l_nt x) (l_has x) (l_late x).
+Definition set_second (v : bool) (x : thr) : thr := mkThr (pc x) (l_task x) (l_nil x) (l_cancel x) v (l_ok x) (l_err x) (l_flag x) (l_n x) (l_a x) (l_b x) (l_acc x) (l_wid x) (l_tm x) (l_lvl x) (l_pan x) (l_nt x) (l_has x) (l_late x).
+Definition set_ok (v : bool) (x : thr) : thr := mkThr (pc x) (l_task x) (l_nil x) (l_cancel x) (l_second x) v (l_err x) (l_flag x) (l_n x) (l_a x) (l_b x) (l_acc x) (l_wid x) (l_tm x) (l_lvl x) (l_pan x) (l_nt x) (l_has x) (l_late x).
+Definition set_err (v : perr) (x : thr) : thr := mkThr (pc x) (l_task x) (l_nil x) (l_cancel x) (l_second x) (l_ok x) v (l_flag x) (l_n x) (l_a x) (l_b x) (l_acc x) (l_wid x) (l_tm x) (l_lvl x) (l_pan x) (l_nt x) (l_has x) (l_late x).
+Definition set_flag (v : bool) (x : thr) : thr := mkThr (pc x) (l_task x) (l_nil x) (l_cancel x) (l_second x) (l_ok x) (l_err x) v (l_n x) (l_a x) (l_b x) (l_acc x) (l_wid x) (l_tm x) (l_lvl x) (l_pan x) (l_nt x) (l_has x) (l_late x).
+Definition set_n (v : Z) (x : thr) : thr := mkThr (pc x) (l_task x) (l_nil x) (l_cancel x) (l_second x) (l_ok x) (l_err x) (l_flag x) v (l_a x) (l_b x) (l_acc x) (l_wid x) (l_tm x) (l_lvl x) (l_pan x) (l_nt x) (l_has x) (l_late x).
+Definition set_a (v : Z) (x : thr) : thr := mkThr (pc x) (l_task x) (l_nil x) (l_cancel x) (l_second x) (l_ok x) (l_err x) (l_flag x) (l_n x) v (l_b x) (l_acc x) (l_wid x) (l_tm x) (l_lvl x) (l_pan x) (l_nt x) (l_has x) (l_late x).
+Definition set_b (v : Z) (x : thr) : thr := mkThr (pc x) (l_task x) (l_nil x) (l_cancel x) (l_second x) (l_ok x) (l_err x) (l_flag x) (l_n x) (l_a x) v (l_acc x) (l_wid x) (l_tm x) (l_lvl x) (l_pan x) (l_nt x) (l_has x) (l_late x).
+Definition set_acc (v : list task) (x : thr) : thr := mkThr (pc x) (l_task x) (l_nil x) (l_cancel x) (l_second x) (l_ok x) (l_err x) (l_flag x) (l_n x) (l_a x) (l_b x) v (l_wid x) (l_tm x) (l_lvl x) (l_pan x) (l_nt x) (l_has x) (l_late x).
+Definition set_wid (v : Z) (x : thr) : thr := mkThr (pc x) (l_task x) (l_nil x) (l_cancel x) (l_second x) (l_ok x) (l_err x) (l_flag x) (l_n x) (l_a x) (l_b x) (l_acc x) v (l_tm x) (l_lvl x) (l_pan x) (l_nt x) (l_has x) (l_late x).
+Definition set_tm (v : tmr) (x : thr) : thr := mkThr (pc x) (l_task x) (l_nil x) (l_cancel x) (l_second x) (l_ok x) (l_err x) (l_flag x) (l_n x) (l_a x) (l_b x) (l_acc x) (l_wid x) v (l_lvl x) (l_pan x) (l_nt x) (l_has x) (l_late x).
+Definition set_lvl (v : nat) (x : thr) : thr := mkThr (pc x) (l_task x) (l_nil x) (l_cancel x) (l_second x) (l_ok x) (l_err x) (l_flag x) (l_n x) (l_a x) (l_b x) (l_acc x) (l_wid x) (l_tm x) v (l_pan x) (l_nt x) (l_has x) (l_late x).
+Definition set_pan (v : bool) (x : thr) : thr := mkThr (pc x) (l_task x) (l_nil x) (l_cancel x) (l_second x) (l_ok x) (l_err x) (l_flag x) (l_n x) (l_a x) (l_b x) (l_acc x) (l_wid x) (l_tm x) (l_lvl x) v (l_nt x) (l_has x) (l_late x).
+Definition set_nt (v : bool) (x : thr) : thr := mkThr (pc x) (l_task x) (l_nil x) (l_cancel x) (l_second x) (l_ok x) (l_err x) (l_flag x) (l_n x) (l_a x) (l_b x) (l_acc x) (l_wid x) (l_tm x) (l_lvl x) (l_pan x) v (l_has x) (l_late x).
+Definition set_has (v : bool) (x : thr) : thr := mkThr (pc x) (l_task x) (l_nil x) (l_cancel x) (l_second x) (l_ok x) (l_err x) (l_flag x) (l_n x) (l_a x) (l_b x) (l_acc x) (l_wid x) (l_tm x) (l_lvl x) (l_pan x) (l_nt x) v (l_late x).
+Definition set_late (v : bool) (x : thr) : thr := mkThr (pc x) (l_task x) (l_nil x) (l_cancel x) (l_second x) (l_ok x) (l_err x) (l_flag x) (l_n x) (l_a x) (l_b x) (l_acc x) (l_wid x) (l_tm x) (l_lvl x) (l_pan x) (l_nt x) (l_has x) v.
 
 Record shared := mkSh {
   s_state : pstate;
@@ -197,18 +199,22 @@ Record ghost := mkGh {
   g_starts : Z;
   g_shuts : Z;
   g_now : bool;
-  g_grace : bool
+  g_grace : bool;
+  g_began : bool;
+  g_shut : bool
 }.
-Definition gs_sent (v : list nat) (x : ghost) : ghost := mkGh v (g_started x) (g_done x) (g_returned x) (g_acc x) (g_rej x) (g_starts x) (g_shuts x) (g_now x) (g_grace x).
-Definition gs_started (v : list nat) (x : ghost) : ghost := mkGh (g_sent x) v (g_done x) (g_returned x) (g_acc x) (g_rej x) (g_starts x) (g_shuts x) (g_now x) (g_grace x).
-Definition gs_done (v : list nat) (x : ghost) : ghost := mkGh (g_sent x) (g_started x) v (g_returned x) (g_acc x) (g_rej x) (g_starts x) (g_shuts x) (g_now x) (g_grace x).
-Definition gs_returned (v : list nat) (x : ghost) : ghost := mkGh (g_sent x) (g_started x) (g_done x) v (g_acc x) (g_rej x) (g_starts x) (g_shuts x) (g_now x) (g_grace x).
-Definition gs_acc (v : list nat) (x : ghost) : ghost := mkGh (g_sent x) (g_started x) (g_done x) (g_returned x) v (g_rej x) (g_starts x) (g_shuts x) (g_now x) (g_grace x).
-Definition gs_rej (v : list nat) (x : ghost) : ghost := mkGh (g_sent x) (g_started x) (g_done x) (g_returned x) (g_acc x) v (g_starts x) (g_shuts x) (g_now x) (g_grace x).
-Definition gs_starts (v : Z) (x : ghost) : ghost := mkGh (g_sent x) (g_started x) (g_done x) (g_returned x) (g_acc x) (g_rej x) v (g_shuts x) (g_now x) (g_grace x).
-Definition gs_shuts (v : Z) (x : ghost) : ghost := mkGh (g_sent x) (g_started x) (g_done x) (g_returned x) (g_acc x) (g_rej x) (g_starts x) v (g_now x) (g_grace x).
-Definition gs_now (v : bool) (x : ghost) : ghost := mkGh (g_sent x) (g_started x) (g_done x) (g_returned x) (g_acc x) (g_rej x) (g_starts x) (g_shuts x) v (g_grace x).
-Definition gs_grace (v : bool) (x : ghost) : ghost := mkGh (g_sent x) (g_started x) (g_done x) (g_returned x) (g_acc x) (g_rej x) (g_starts x) (g_shuts x) (g_now x) v.
+Definition gs_sent (v : list nat) (x : ghost) : ghost := mkGh v (g_started x) (g_done x) (g_returned x) (g_acc x) (g_rej x) (g_starts x) (g_shuts x) (g_now x) (g_grace x) (g_began x) (g_shut x).
+Definition gs_started (v : list nat) (x : ghost) : ghost := mkGh (g_sent x) v (g_done x) (g_returned x) (g_acc x) (g_rej x) (g_starts x) (g_shuts x) (g_now x) (g_grace x) (g_began x) (g_shut x).
+Definition gs_done (v : list nat) (x : ghost) : ghost := mkGh (g_sent x) (g_started x) v (g_returned x) (g_acc x) (g_rej x) (g_starts x) (g_shuts x) (g_now x) (g_grace x) (g_began x) (g_shut x).
+Definition gs_returned (v : list nat) (x : ghost) : ghost := mkGh (g_sent x) (g_started x) (g_done x) v (g_acc x) (g_rej x) (g_starts x) (g_shuts x) (g_now x) (g_grace x) (g_began x) (g_shut x).
+Definition gs_acc (v : list nat) (x : ghost) : ghost := mkGh (g_sent x) (g_started x) (g_done x) (g_returned x) v (g_rej x) (g_starts x) (g_shuts x) (g_now x) (g_grace x) (g_began x) (g_shut x).
+Definition gs_rej (v : list nat) (x : ghost) : ghost := mkGh (g_sent x) (g_started x) (g_done x) (g_returned x) (g_acc x) v (g_starts x) (g_shuts x) (g_now x) (g_grace x) (g_began x) (g_shut x).
+Definition gs_starts (v : Z) (x : ghost) : ghost := mkGh (g_sent x) (g_started x) (g_done x) (g_returned x) (g_acc x) (g_rej x) v (g_shuts x) (g_now x) (g_grace x) (g_began x) (g_shut x).
+Definition gs_shuts (v : Z) (x : ghost) : ghost := mkGh (g_sent x) (g_started x) (g_done x) (g_returned x) (g_acc x) (g_rej x) (g_starts x) v (g_now x) (g_grace x) (g_began x) (g_shut x).
+Definition gs_now (v : bool) (x : ghost) : ghost := mkGh (g_sent x) (g_started x) (g_done x) (g_returned x) (g_acc x) (g_rej x) (g_starts x) (g_shuts x) v (g_grace x) (g_began x) (g_shut x).
+Definition gs_grace (v : bool) (x : ghost) : ghost := mkGh (g_sent x) (g_started x) (g_done x) (g_returned x) (g_acc x) (g_rej x) (g_starts x) (g_shuts x) (g_now x) v (g_began x) (g_shut x).
+Definition gs_began (v : bool) (x : ghost) : ghost := mkGh (g_sent x) (g_started x) (g_done x) (g_returned x) (g_acc x) (g_rej x) (g_starts x) (g_shuts x) (g_now x) (g_grace x) v (g_shut x).
+Definition gs_shut (v : bool) (x : ghost) : ghost := mkGh (g_sent x) (g_started x) (g_done x) (g_returned x) (g_acc x) (g_rej x) (g_starts x) (g_shuts x) (g_now x) (g_grace x) (g_began x) v.
 
 (* ---------------------------------------------------------------- configuration *)
 Record params := mkPar {
@@ -229,7 +235,7 @@ Inductive wake :=
 (* history (ghost) events *)
 Inductive gev :=
 | GSent (id : nat) | GStarted (id : nat) | GDone (id : nat) | GReturned (ids : list nat)
-| GAcc (id : nat) | GRej (id : nat) | GStartOk | GShutOk | GNow | GGrace.
+| GAcc (id : nat) | GRej (id : nat) | GStartOk | GShutOk | GNow | GGrace | GBegan | GShut.
 
 Record pout := mkOut {
   o_sh : shared;
@@ -248,7 +254,7 @@ Definition fin (s : shared) (r : pret) (g : list gev) : option pout :=
 Definition quit (s : shared) : option pout := Some (mkOut s None None None WkNone []).
 
 Definition thr0 (p : ppc) : thr :=
-  mkThr p task0 false false false false PENone false 0 0 0 [] 0 TmDead O false false false.
+  mkThr p task0 false false false false PENone false 0 0 0 [] 0 TmDead O false false false false.
 Definition new_worker (id : Z) : thr := set_wid id (thr0 WNewTimer).
 
 Definition b_free (s : shared) : bool := negb (s_bw s) && (s_br s =? 0).
@@ -343,7 +349,7 @@ Definition pstep0 (P : params) (s : shared) (th : thr) : option pout :=
   | StRetStarted => fin s (RStart PEStarted) []
   | StCas =>
     if pstate_eqb (s_state s) SCreated
-    then stay (st_prev SCreated (st_state SLocked s)) (goto StN th)
+    then stayg (st_prev SCreated (st_state SLocked s)) (goto StN th) [GBegan]
     else stay s (goto StChkClosing th)
   | StN => stay s (goto NcN th)
   | NcN => stay s (goto NcAllow (set_n (i_init P) th))
@@ -375,7 +381,7 @@ Definition pstep0 (P : params) (s : shared) (th : thr) : option pout :=
   | ShChkClosing => stay s (goto (if pstate_eqb (s_state s) SClosing then ShRetClosing else ShCas) th)
   | ShRetClosing => fin s (RShutdown PEClosing) []
   | ShCas =>
-    if pstate_eqb (s_state s) SRunning then stay (st_state SClosing s) (goto ShClose th)
+    if pstate_eqb (s_state s) SRunning then stayg (st_state SClosing s) (goto ShClose th) [GShut]
     else stay s (goto ShChkCreated th)
   | ShClose =>
     if s_closed s then Some (mkOut s None (Some RPanicClose) None WkNone [])
@@ -601,7 +607,7 @@ Record pcfg := mkCfg {
 
 Definition sh0 : shared :=
   mkSh SCreated SCreated [] false 0 0 [] 0 false 0 false 0 0 false.
-Definition gh0 : ghost := mkGh [] [] [] [] [] [] 0 0 false false.
+Definition gh0 : ghost := mkGh [] [] [] [] [] [] 0 0 false false false false.
 Definition pinit (P : params) : pcfg := mkCfg P sh0 [] (i_base P) O gh0.
 
 Definition apply_gev (g : ghost) (e : gev) : ghost :=
@@ -616,6 +622,8 @@ Definition apply_gev (g : ghost) (e : gev) : ghost :=
   | GShutOk => gs_shuts (g_shuts g + 1) g
   | GNow => gs_now true g
   | GGrace => gs_grace true g
+  | GBegan => gs_began true g
+  | GShut => gs_shut true g
   end.
 Definition apply_gevs (g : ghost) (l : list gev) : ghost := fold_left apply_gev l g.
 
@@ -666,7 +674,11 @@ Inductive pev :=
 | PFire (t : tid)              (* worker t's armed idle timer fires *)
 | PFinish (t : tid).           (* the user function run by worker t returns / panics *)
 
-Definition enter (op : pop) : thr :=
+(* a call is LATE when it is invoked after a Shutdown / ShutdownNow has taken effect (history flag) *)
+Definition is_down (s : shared) : bool :=
+  match s_state s with SClosing | SStopped => true | _ => false end.
+
+Definition enter0 (op : pop) : thr :=
   match op with
   | OpSubmit id p => set_task (mkTask id O p) (thr0 SbNil)
   | OpSubmitNil => set_nil true (thr0 SbNil)
@@ -674,6 +686,7 @@ Definition enter (op : pop) : thr :=
   | OpShutdown => thr0 ShFor
   | OpShutdownNow => thr0 SnFor
   end.
+Definition enter (s : shared) (op : pop) : thr := set_late (is_down s) (enter0 op).
 
 Definition with_thr (c : pcfg) (l : list (tid * thr)) : pcfg :=
   mkCfg (c_par c) (c_sh c) l (c_next c) (c_ntask c) (c_gh c).
@@ -705,10 +718,10 @@ Definition pexec1 (c : pcfg) (e : pev) : option (pcfg * list (tid * pobs)) :=
         match op with
         | OpSubmit id _ =>
           if Nat.eqb id (c_ntask c)
-          then Some (mkCfg (c_par c) (c_sh c) (spawn t (enter op) (c_thr c)) (c_next c) (S (c_ntask c)) (c_gh c),
-                     obs_of t (enter op))
+          then Some (mkCfg (c_par c) (c_sh c) (spawn t (enter (c_sh c) op) (c_thr c)) (c_next c) (S (c_ntask c)) (c_gh c),
+                     obs_of t (enter (c_sh c) op))
           else None
-        | _ => Some (with_thr c (spawn t (enter op) (c_thr c)), obs_of t (enter op))
+        | _ => Some (with_thr c (spawn t (enter (c_sh c) op) (c_thr c)), obs_of t (enter (c_sh c) op))
         end
       else None
     end
